@@ -30,6 +30,8 @@ def structure(P, es, nseg, rad):
 def cases(tier, seed):
     yield from extras(tier, seed)
     yield from fixed_cases()
+    if tier == 'thorough':
+        yield from cases7(tier, seed)
     D = 3 if tier == 'quick' else 4
     for ground, special in ((False, False), (True, False), (False, True), (True, True)):
         P, f, lam = geom.lattice(seed, ground=ground, special=special)
@@ -47,6 +49,17 @@ def cases(tier, seed):
                     nseg = [geom.auto_nseg(np.linalg.norm(P[a] - P[b]), nseg * lam) for a, b in es]
                 st = [dict(a=a, b=b, n=nseg[i], r=rad[i] * lam) for i, (a, b) in enumerate(es)]
                 yield dict(env='ideal' if ground else 'free', f=f, lam=lam, pts=pts, st=st)
+
+
+def cases7(tier, seed):
+    """thorough tier: structures with <= 3 wires that use the two extra points of the 7-point lattices"""
+    for ground in (False, True):
+        P, f, lam = geom.lattice(seed, ground=ground, n=7)
+        pts = [list(map(float, p)) for p in P]
+        for es in geom.edge_sets_new(7, 3):
+            nseg = [geom.auto_nseg(np.linalg.norm(P[a] - P[b]), 0.05 * lam) for a, b in es]
+            rad = (2e-4, 3e-5, 2e-4)
+            yield dict(env='ideal' if ground else 'free', f=f, lam=lam, pts=pts, st=[dict(a=a, b=b, n=nseg[i], r=rad[i] * lam) for i, (a, b) in enumerate(es)])
 
 
 def extras(tier, seed):
